@@ -7,7 +7,6 @@ import (
 	"go/types"
 	"strings"
 
-	"golang.org/x/tools/go/ssa"
 )
 
 // cellInvFor finds the declared invariant for a component.
@@ -106,9 +105,3 @@ func (fe *FuncEnc) monReturn(f *Frame, st *State, reach Term, res []Term, pos to
 func (fe *FuncEnc) monLoopEntry(f *Frame, li *loopInfo, st *State, reach Term, pos token.Pos)   {}
 func (fe *FuncEnc) monLoopHavoc(f *Frame, li *loopInfo, st *State, reach Term)                  {}
 func (fe *FuncEnc) monBackEdge(f *Frame, li *loopInfo, st *State, cond Term, pos token.Pos)     {}
-func (fe *FuncEnc) monCall(f *Frame, callee *ssa.Function, name string, args []Term, st *State, path Term, pos token.Pos) ([]Term, bool) {
-	return nil, false
-}
-func (fe *FuncEnc) monInvoke(f *Frame, iface, method string, recv Term, args []Term, st *State, path Term, pos token.Pos) ([]Term, bool) {
-	return nil, false
-}
